@@ -54,6 +54,13 @@ class StandardGeometry(BaseGeometry):
         Returns:
             ndarray: The distances to the geometry.
         """
+        if np.isinf(self.radius):
+            # a surface of infinite radius is a plane (the conic equation
+            # below is undefined there)
+            t = -rays.z / rays.N
+            t[t < 0] = np.nan
+            return t
+
         a = self.k * rays.N**2 + rays.L**2 + rays.M**2 + rays.N**2
         b = (2 * self.k * rays.N * rays.z
              + 2 * rays.L * rays.x
